@@ -148,9 +148,11 @@ pub fn run(rng: &mut Rng, n: usize, out: &mut Out, which: &str) {
                 let mut prev: Option<(Board, bool, Vec<Move>)> = None;
                 for ci in 0..ncmds {
                     // start: startpos, corpus FEN, or a generated valid position; counters from the interesting set
-                    let related = if which == "c04" && prev.is_some() && rng.chance(3, 5) { 1 + rng.below(4) } else { 0 };
-                    // a new game between two commands now and then (the next command may well repeat the previous game's moves)
-                    if which == "c04" && ci > 0 && rng.chance(1, 3) {
+                    // a new game between two commands now and then; the command after it usually repeats or extends the previous
+                    // game (what a GUI does when the same opening is played again)
+                    let newgame = which == "c04" && ci > 0 && rng.chance(1, 3);
+                    let related = if which == "c04" && prev.is_some() && (if newgame { rng.chance(3, 4) } else { rng.chance(3, 5) }) { if newgame { *rng.pick(&[1u64, 1, 5, 5, 2, 3]) } else { 1 + rng.below(5) } } else { 0 };
+                    if newgame {
                         out.run(&mut st, &format!("eng.pos {} | ucinewgame", board_text(&Board::default())));
                         // the engine has drawn new hash keys: tell the model which
                         let keys = zobrist_keys_text(st.uci.verif_searcher().verif_zobrist());
@@ -169,6 +171,7 @@ pub fn run(rng: &mut Rng, n: usize, out: &mut Out, which: &str) {
                             1 => { forced_prefix = pm.clone(); out.count("related_cmd_extension"); }                               // same game, more moves
                             2 => { forced_prefix = pm[..pm.len() / 2].to_vec(); out.count("related_cmd_takeback"); }               // moves taken back
                             3 => { forced_prefix = pm[..pm.len().min(rng.below(3) as usize)].to_vec(); replay_tail = pm.clone(); out.count("related_cmd_other_game_same_texts"); } // another game, same move texts later
+                            5 => { forced_prefix = pm.clone(); out.count("related_cmd_same_game_again"); }                          // exactly the same list
                             _ => { forced_prefix = pm.clone(); if !forced_prefix.is_empty() { forced_prefix.pop(); } out.count("related_cmd_last_move_replaced"); }
                         }
                     }
@@ -204,7 +207,7 @@ pub fn run(rng: &mut Rng, n: usize, out: &mut Out, which: &str) {
                     }
                     // C09: sometimes a LONG game in which a position occurs twice early and is approached a third time
                     // more than a hundred plies later (nothing in the rules limits how far back an occurrence may lie)
-                    let mut plies = plies;
+                    let mut plies = if related == 5 { 0 } else { plies };
                     if which == "c09" && rng.chance(1, 4) {
                         if let Some(ms) = long_repetition_game(&g, rng, &start) {
                             for m in &ms { b.make_move(m); }
